@@ -319,6 +319,13 @@ func (p *Parser) parseBetweenExpression(left Expression) Expression {
 }
 
 func (p *Parser) parseInExpression(left Expression) Expression {
+	if !p.peekTokenIs(LPAREN) {
+		// the operand list of IN is parenthesised
+		p.peekError(LPAREN)
+
+		return nil
+	}
+
 	p.nextToken()
 
 	return &InExpression{
